@@ -531,7 +531,9 @@ def run(chk, replay=None):
             for cf in sorted(common):
                 d = reports.setdefault(cf, {"scenario": name, "rep": rep, "methods": set(), "count": 0, "all": []})
                 ms = set(m for hit in per for (c, f, m, k) in hit if (c, f) == cf)
-                scen_members.setdefault(name, []).append((cf, ms))
+                # + the method names of every frame of both stacks (setState's caller is the operation: forceClose ...)
+                fnames = set(m.group(2) for (_w, fr) in rep["stacks"][:2] for (fn, fl, ln) in fr for m in [FRAME_METHOD.search(fn)] if m)
+                scen_members.setdefault(name, []).append((cf, ms | fnames))
                 d["methods"] |= ms
                 d.setdefault("fns", set()).update(fn for (_w, fr) in rep["stacks"][:2] for (fn, fl, ln) in fr)
                 d["all"].append((name, rep, ms))
